@@ -441,6 +441,9 @@ def check_region_rules(rep, B):
         rep.floor("R33.8", "clap declarations of the `check` argument (augment_args, augment_args_for_update)", n, 2)
     rep.guard("R33.8", "flag declaration", r8)
 
+    # the per-file rules apply to the switches inside the file loop (a test of the flag elsewhere only matters for R33.1)
+    holders = [(f, sw, neg) for f, sw, neg in holders if loop_headers(f, sw)]
+    rep.floor("R33.2", "switches on the `check` flag inside the loop over the generated files", len(holders), 1)
     ctxs = []
     for f, sw, neg in holders:
         rep.guard("R33.2", f"check region of {short(f.npath)}",
@@ -470,6 +473,26 @@ def region_rules(rep, B, f, sw, neg):
     it = [c for c in f.calls("Files::iter")]
     rep.ob("R33.2", f"{fn}: the loop walks Files::iter", bool(it) and all(
         any(f.dominates(c.bb, h) for c in it) for h in H), "", f.loc(sw))
+
+    # ... of the very file set the generator filled: defined once, handed only to the generator and to Files::iter
+    for c in it:
+        calls, fin = chain(f, c.args[0])
+        src = calls[0][0] if calls else None
+        whole = [d for d in f.defs.get(src.dest["l"], []) if d[2] != "partial"] if src is not None else []
+        users = []
+        for u in f.calls():
+            if u.bb == c.bb:
+                continue
+            for a in u.args:
+                o = f.origin(a)
+                if src is not None and o.get("kind") == "call" and o["call"].bb == src.bb:
+                    users.append(u)
+        stray = [u for u in users if not (u.matches("WorldGenerator::generate") or u.matches("Files::iter") or
+                                          any(mir.norm(n) in B.by_name for n in u.names()))]
+        rep.ob("R33.2", f"{fn}: the file set walked is created once (Files::default) and only handed to the generator",
+               src is not None and src.matches(re.compile(r"Files as std::default::Default>::default$|Files::default$|Files::new$"))
+               and len(whole) == 1 and bool(users) and not stray,
+               f"definitions: {len(whole)}; other users: {[short(mir.norm(u.callee)) for u in stray]}", f.loc(c.bb))
 
     # ... directly: an adaptor such as skip / take / filter / step_by would leave files unchecked
     for h in H:
@@ -1020,7 +1043,11 @@ def run(rep, tier):
         "closure from `main` (plus all impls of foreign traits) through `dyn WorldGenerator` and the other workspace "
         "traits over the nine generator crates: no std::fs (non read-only) / File-write API site is reachable other than "
         "the two guarded ones in main. R33.7: child processes in reachable generator code are the known formatters, spawned "
-        "without arguments. NOT decided: that `lines()` equality is the right notion of a line-ending-only difference "
+        "without arguments. R33.8: clap declares `check` with ArgAction::SetTrue. Also: the loop walks Files::iter of the "
+        "one file set handed to the generator with no skipping adaptor, the holder's Err reaches main's Result (or a "
+        "non-zero exit / panic), the destination path has no definition guarded by the flag, and the `binary-looking "
+        "character` predicate (evaluated on its MIR) is false for CR, LF, TAB and letters and taken on its false edge. "
+        "The read + comparison may live in a CLI-crate helper called from the check region (Result-returning). NOT decided: that `lines()` equality is the right notion of a line-ending-only difference "
         "(a missing final newline or a file with control characters is reported differently), behaviour of the file "
         "system between read and compare, what external formatters or third-party crates do, the `test` subcommand "
         "(it has no check mode and writes by design).",
